@@ -148,16 +148,26 @@ class SuitDigestExt(PrettyPrintHelperMixin):
                 with open(digest_dict["file"], "rb") as fd:
                     obj[suit_digest_bytes.name] = hfunc.hash(fd.read())
             elif "envelope" in digest_dict.keys():
+                import cbor2
                 from suit_generator.suit.envelope import SuitEnvelopeTagged
+                from suit_generator.suit.types.keys import suit_manifest
 
                 if isinstance(digest_dict["envelope"], dict):
                     sub_envelope = SuitEnvelopeTagged.from_obj(digest_dict["envelope"])
+                    sub_envelope.update_severable_digests()
+                    sub_envelope.update_digest()
+                    obj[suit_digest_bytes.name] = sub_envelope.get_manifest_digest(
+                        obj[suit_digest_algorithm_id.name]
+                    ).hex()
                 else:
+                    # The file is embedded as it is, so the digest has to cover the manifest bytes of the file,
+                    # not a re-encoded copy of them.
                     with open(digest_dict["envelope"], "rb") as fh:
-                        sub_envelope = SuitEnvelopeTagged.from_cbor(fh.read())
-                sub_envelope.update_severable_digests()
-                sub_envelope.update_digest()
-                obj[suit_digest_bytes.name] = sub_envelope.get_manifest_digest(obj[suit_digest_algorithm_id.name]).hex()
+                        sub_envelope_bytes = fh.read()
+                    SuitEnvelopeTagged.from_cbor(sub_envelope_bytes)
+                    manifest_bstr = cbor2.dumps(cbor2.loads(sub_envelope_bytes).value[suit_manifest.id])
+                    hfunc = SuitHash(obj[suit_digest_algorithm_id.name])
+                    obj[suit_digest_bytes.name] = hfunc.hash(manifest_bstr)
             elif "raw" in digest_dict.keys():
                 obj[suit_digest_bytes.name] = digest_dict["raw"]
             elif "file_direct" in digest_dict.keys():
